@@ -44,6 +44,7 @@ type Knobs struct {
 	PCpErr        float64
 	PCrash        float64
 	FaultKinds    map[string]bool
+	StallPick     int // > 0: 1 + index (mod number of controllers, by name) of the stalled controller
 }
 
 func (s *Sim) DrawKnobs() {
@@ -112,6 +113,14 @@ func (s *Sim) DrawKnobs() {
 		if on("crash") {
 			k.PCrash = rate / 10
 			k.FaultKinds["crash"] = true
+		}
+	}
+	// a stalled component: in a third of the fault-injecting runs one controller (chosen by the run) starts its
+	// reconciles far less readily than the others while faults are on; it still runs whenever nothing else can
+	if !s.Cfg.NoFaults && s.Cfg.Forced == nil {
+		if v := ch.Pick("k.stall", 90); v < 30 {
+			k.StallPick = v + 1
+			k.FaultKinds["ctrl.stall"] = true
 		}
 	}
 	s.Knobs = k
